@@ -160,6 +160,8 @@ def _segments(rng, frames_, mode, gap_mode, t0=None):
         if c in bset:
             if gap_mode == "idle":
                 t += rng.choice([0.0, 0.01, 5.5, 11.0])
+            elif gap_mode == "very-long-idle":
+                t += rng.choice([0.0, 5200.0, 6100.0])  # a peer silent for well over a thousand socket timeouts
             elif gap_mode == "tight":
                 t += 0.0
             else:
@@ -173,6 +175,8 @@ def _segments(rng, frames_, mode, gap_mode, t0=None):
 def plan(seed, tier="quick", index=0):
     rng = sub_rng(seed, "plan")
     stratum = rng.choice(["small", "small", "mixed", "mixed", "mixed", "mixed", "handled-only", "handled-only", "stop-at", "stop-at", "churn", "churn", "big", "big", "long", "many-peers"])
+    if rng.random() < 0.0006:
+        stratum = "flood"  # capacity limits: > 10 000 messages queued on one node (seconds per run, hence rare)
     network = rng.choice(sorted(MAGICS))
     magic = MAGICS[network]
     if stratum == "small":
@@ -188,6 +192,10 @@ def plan(seed, tier="quick", index=0):
         n_peers = rng.choice([2, 3])
         counts = [rng.choice([20, 33, 65, 130]) for _ in range(n_peers)]
         kinds_per_peer = [ALL_KINDS] * n_peers
+    elif stratum == "flood":
+        n_peers = 3
+        counts = [rng.choice([3700, 4400]) for _ in range(n_peers)]
+        kinds_per_peer = [["getaddr", "feefilter", "sendcmpct", "getaddr", "table-cmd"]] * n_peers  # all queued: > 11 000 entries
     elif stratum == "many-peers":
         n_peers = rng.choice([6, 8, 11, 17])
         counts = [rng.choice([1, 1, 2]) for _ in range(n_peers)]
@@ -208,7 +216,11 @@ def plan(seed, tier="quick", index=0):
         mode = "frames" if stratum == "small" and rng.random() < 0.7 else rng.choice(
             ["frames", "coalesce", "random", "boundary", "header-split"]
         )
+        if stratum == "flood":
+            mode = "coalesce"
         gap = "tight" if (stratum == "small" or sync) else rng.choice(["tight", "normal", "idle"])
+        if stratum in ("mixed", "handled-only") and not sync and rng.random() < 0.03:
+            gap = "very-long-idle"
         peers.append(
             {
                 "port": 18000 + p,
@@ -230,6 +242,10 @@ def plan(seed, tier="quick", index=0):
     gran = rng.choice(["io", "line", "line", "line", "line", "opcode"])
     if stratum in ("long", "many-peers"):
         gran = rng.choice(["io", "line", "line"])
+    if stratum == "flood":
+        gran = "io"
+    if any(pd["gap"] == "very-long-idle" for pd in peers):
+        gran = rng.choice(["io", "line"])  # thousands of timeouts: keep the step count in bounds
     nmsgs = sum(counts)
     scale = {"io": 0.25, "line": 1.0, "opcode": 5.0}[gran]
     horizon = int((15 * n_peers + 18 * nmsgs) * scale) + 2
@@ -315,7 +331,7 @@ class LogDeque(deque):
         return self
 
     def copy(self):
-        c = LogDeque(self)
+        c = LogDeque(self, self.maxlen)
         if self._ctx is not None:
             c._bind(self._ctx)
             c._owner = dict(self._owner)
@@ -406,7 +422,10 @@ def execute(scenario, tape=None, keep_events=False):
         strategy=tuple(scenario["strategy"]),
         granularity=scenario["granularity"],
         tape=tape,
-        step_cap=STEP_CAP + 150000 * sum(1 for pd in scenario["peers"] for m in pd["msgs"] if m.get("big")) + 400 * sum(len(pd["msgs"]) for pd in scenario["peers"]),
+        step_cap=STEP_CAP
+        + 150000 * sum(1 for pd in scenario["peers"] for m in pd["msgs"] if m.get("big"))
+        + 400 * sum(len(pd["msgs"]) for pd in scenario["peers"])
+        + 100 * int(sum(max([sg[0] for sg in pd["segments"]] or [0.0]) for pd in scenario["peers"]) / 5.0 + 1) * len(scenario["peers"]),
         trace_files=(p2p.__file__,),
         probes=probes,
     )
@@ -453,7 +472,7 @@ def execute(scenario, tape=None, keep_events=False):
             node = p2p.Node(seeds=[f"{p.host}:{p.port}" for p in peers if not (late and p is peers[-1])])
             q = getattr(node, "_msg_queue", None)
             if type(q) is deque:
-                node._msg_queue = LogDeque(q)._bind(ctx)
+                node._msg_queue = LogDeque(q, q.maxlen)._bind(ctx)  # same contents, same capacity
             r = getattr(node, "_registered_commands_to_handle", None)
             if type(r) is list:
                 node._registered_commands_to_handle = LogList(r)._bind(ctx)
